@@ -661,6 +661,8 @@ def _step(draw, x):
     if isinstance(x, _dt.date):
         alt = [x.isoformat(), None, x.toordinal()]
         alt.append(x + _dt.timedelta(days=1) if x < _dt.date.max else x - _dt.timedelta(days=1))
+        # the same calendar day as a datetime (midnight, and some time of that day): another kind of value
+        alt += [_dt.datetime(x.year, x.month, x.day), _dt.datetime(x.year, x.month, x.day, 13, 30)]
         return draw(st.sampled_from(alt))
     if isinstance(x, list):
         ops = ["append", "tuple", "none", "dict"]
